@@ -93,7 +93,7 @@ def sched_parts(pid: str, tier: str):
             mk("whole-run-N4", Cfg(N=4, resources="tma", max_async=1, monitors=mons), base_req, 1500, 9)
     elif pid == "C06":
         mons = ("C06",)
-        mk("whole-run-N3-prio", Cfg(N=3, resources="tm", sym_prio=True, routes="dcp", monitors=mons), base_req, 600)
+        mk("whole-run-N3-prio", Cfg(N=3, resources="tm", sym_prio=True, routes="dcpt", warmup=True, monitors=mons), base_req + ["w_warmup"], 600)
         mk("whole-run-N3-prio-nested", Cfg(N=3, resources="t", sym_prio=True, sym_seq=False, nested=True, monitors=mons), base_req, 600)
         mk("whole-run-N3-prio-selection", Cfg(N=3, resources="t", sym_prio=True, sym_seq=False, selection=True, debug_leaf=True, monitors=mons), base_req + ["w_debug_in_subgraph"], 600)
         from harness.graph import GCfg, run_c07
@@ -125,11 +125,12 @@ def sched_parts(pid: str, tier: str):
     elif pid == "C14":
         mons = ("C14",)
         mk("whole-run-N3-faults", Cfg(N=3, resources="tma", faults=2, flavours="sa", profiling=True, monitors=mons), base_req + ["w_fault", "w_fault_with_sibling", "w_raised_fault"], 600)
+        mk("whole-run-N3-faults-nested", Cfg(N=3, resources="tm", faults=1, nested=True, sym_seq=False, monitors=mons), base_req + ["w_fault", "w_raised_fault"], 600)
         if not q:
             mk("whole-run-N4-faults", Cfg(N=4, resources="tma", max_async=1, faults=2, sym_seq=False, monitors=mons), base_req, 1500, 9)
     elif pid == "C17":
-        mons = ("C17", "C01", "C03", "C04", "C09")
-        mk("whole-run-N3-both-flavours", Cfg(N=3, resources="tma", flavours="sa", monitors=mons), base_req, 600)
+        mons = ("C17", "C01", "C03", "C04", "C06", "C09")
+        mk("whole-run-N3-both-flavours", Cfg(N=3, resources="tma", flavours="sa", sym_prio=True, monitors=mons), base_req, 600)
         from harness.threads import TCfg, run_threads
 
         parts.append(Part("concurrent-awaits-2", P(run_threads, TCfg(mode="awaits", threads=2)), {"awaits": 2, "N": 3, "shapes": 3, "nodes": "async-thread (one optionally thread)", "max_concurrency": "1..3",
